@@ -265,4 +265,32 @@ def run(ctx):
             fc = [(i, line) for (i, j, rv, line) in agg_sites(b, r"error::ErrorKind$", "FlowControl")]
             cond = [i for (i, line) in fc if not all(b.dominates(i, r) for r in b.return_blocks())]
             ctx.ob("R5", "%s|FLOW_CONTROL_ERROR" % b.short, bool(fc) and len(cond) == len(fc), b.where(), "FlowControl constructions: %d, conditional: %d" % (len(fc), len(cond)))
+    # strictness and operands of the per-stream limit comparison: the error is raised exactly when end > limit
+    for name in ("qrecovery::recv::recver::Recv::recv", "qrecovery::recv::recver::Recv::determin_size"):
+        b = ctx.anchor("R5", name)
+        if not b:
+            continue
+        got = []
+        for (i, j, rv, line) in agg_sites(b, r"error::ErrorKind$", "FlowControl"):
+            g = guard_cmp(b, i)
+            if g is None:
+                got.append("<no comparison recognised>")
+                continue
+            (sw, op, x, y) = g
+
+            def cls(o):
+                rs = value_roles(b, o)
+                if any(r.startswith("sum(") and "StreamFrame::offset" in r and "::len" in r for r in rs):
+                    return "END"
+                if "field:Recv.max_stream_data" in rs:
+                    return "LIMIT"
+                return "|".join(sorted(rs))
+            cx, cy = cls(x), cls(y)
+            if cx > cy:
+                cx, cy, op = cy, cx, {"Gt": "Lt", "Ge": "Le", "Lt": "Gt", "Le": "Ge", "Eq": "Eq", "Ne": "Ne"}[op]
+            got.append("%s %s %s" % (cx, op, cy))
+        ctx.ob("R5", "%s|FLOW_CONTROL_ERROR exactly when END > LIMIT" % b.short, got == ["END Gt LIMIT"], b.where(),
+               "relation that holds when the error is built: %s (END = frame offset + data length, LIMIT = Recv.max_stream_data); "
+               "`>=` would refuse data that exactly fills the advertised window, a comparison of the offset alone admits a frame "
+               "that straddles the limit" % got)
     ctx.assume("SendBuf::pick charges flow_limit only for Pending-coloured picks and reports is_fresh for them (value-level, C09)")
